@@ -190,6 +190,16 @@ def event_sets(pname, taus, thorough):
     # one function with two roots (same step / consecutive steps / far apart)
     for (i, j) in ([(2, 3), (3, 4), (1, 5)] if n >= 6 else [(0, 1), (1, 2)]):
         sets.append([dict(kind="double", tau=taus[i], tau2=taus[j])])
+    # the same level watched by two functions of very different scale (they cross together EVERY time, also after each has fired before)
+    sets.append([dict(kind="state", tau=taus[0]), dict(kind="state", tau=taus[0], smul=1e3)])
+    sets.append([dict(kind="state", tau=taus[-1], smul=1e-3), dict(kind="state", tau=taus[-1]), dict(kind="time", tau=taus[1])])
+    if pname == "osc":
+        # a state function that has already fired meets a time function exactly at its second crossing (sin t = sin tau again at pi - tau)
+        for tau in taus:
+            for k in (-1, 0, 1):
+                t2 = np.pi - tau + 2 * np.pi * k
+                sets.append([dict(kind="state", tau=tau), dict(kind="time", tau=float(t2))])
+                sets.append([dict(kind="time", tau=float(t2)), dict(kind="state", tau=tau)])
     # three simultaneous
     sets.append([dict(kind="time", tau=taus[0]), dict(kind="state", tau=taus[1]), dict(kind="time", tau=taus[2])])
     sets.append([dict(kind="state", tau=taus[2]), dict(kind="time", tau=taus[1]), dict(kind="state", tau=taus[1])])
@@ -215,7 +225,8 @@ def cells(quick):
                             for dense in (True, False):
                                 if quick and len(es) == 1 and s in (1e-3, 1e3) and dr != 0:
                                     continue
-                                evs = [dict(e, s=(s if (i % 2 == 0 or len(es) < 2) else s * (1e-3 if s >= 1 else 1e3)) if si % 3 == 2 else s, dir=dr) for i, e in enumerate(es)]
+                                evs = [dict({k_: v_ for k_, v_ in e.items() if k_ != "smul"},
+                                            s=((s if (i % 2 == 0 or len(es) < 2) else s * (1e-3 if s >= 1 else 1e3)) if si % 3 == 2 else s) * e.get("smul", 1.0), dir=dr) for i, e in enumerate(es)]
                                 out.append(dict(problem=pname, span=list(span), dt0=dt0, method=m, dense=dense, dtype="float64", events=evs, tol=1e-8))
     if not quick:
         extra = []
